@@ -110,6 +110,10 @@ def uint64Max : Nat := 18446744073709551615
 /-- `finder.ctx.LastAnchor - 1` in uint64 arithmetic. -/
 def predU64 (n : Nat) : Nat := if n = 0 then uint64Max else n - 1
 
+/-- What an honest peer answers to `GetSyncAncestor` when it is handed all anchors
+(`ChainService.findAncestor`): the first, i.e. highest, anchor that is on its main chain. -/
+def honestLightReply (best : Nat) (same : Nat → Bool) : Option Nat := (anchors best).find? same
+
 /-- `Finder.fullscan`: binary search over `0 .. LastAnchor-1`. -/
 def fullscan (probe : Nat → Probe) (lastAnchor : Nat) : FinderOut :=
   match binarySearch probe 0 (predU64 lastAnchor) none with
